@@ -40,6 +40,18 @@ func runC02(c *Ctx) {
 	ruleR02_1(c)
 	ruleR02_6(c)
 	ruleRoutableAPIDelegates(c, "R02.2", "Authorizer", "AuthenticatorsFor")
+	// every route carries the registered authorizer — whatever its security requirements look like (an operation that
+	// also admits anonymous callers still has its authenticated principals authorized)
+	{
+		ar := c.P.Fn("(*rt/middleware.defaultRouteBuilder).AddRoute")
+		n := 0
+		for _, st := range fieldStores(ar, routeEntryT, "Authorizer") {
+			n++
+			ok, bad := allOrigins(st.Val, oCall(-1, "(rt/middleware.RoutableAPI).Authorizer"))
+			c.obI("R02.2", st, "route-carries-registered-authorizer", ok, "the route entry's Authorizer is what the API's Authorizer() returned, unconditionally", "origin "+describeOrigin(bad))
+		}
+		c.obRF("R02.2", ar, "route-gets-authorizer", n >= 1, "AddRoute records the authorizer in the route entry", "")
+	}
 	ruleAlternativeStorageFresh(c, "R02.6")
 	ruleFreshMatchedRoute(c, "R02.5", "the matched route — in which Authorize records the authenticator that accepted the request, and on which NeedsAuth answers — is allocated for one lookup: what one request presented never decides another request's authentication", "the route returned by Lookup outlives the request (its Authenticator field would carry one request's outcome to the next)")
 }
